@@ -46,6 +46,23 @@ def user_variants(p):
     ]
 
 
+def survives(acc, case, key, scorer, cuts, what):
+    """Held results must survive later evaluate calls (see util.result_survives)."""
+    cuts = [tuple(c) for c in cuts]
+    if len(cuts) < 2 or len(set(cuts)) < 2:
+        return True
+    for a, b in ((cuts, cuts[::-1]), (cuts[:1], cuts[-1:]), (cuts, cuts[-1:])):
+        if a == b:
+            continue
+        ok, before, after = util.result_survives(scorer, a, b)
+        if not ok:
+            acc.violation("result-overwritten", dict(case, scorer=what, first=[list(x) for x in a][:4], then=[list(x) for x in b][:4]),
+                          f"{what}: the array returned by one evaluate call changed from {before.tolist()[:3]} to {after.tolist()[:3]} "
+                          f"after a later evaluate call on the same scorer", key)
+            return False
+    return True
+
+
 def cuts3(n, ms):
     return [(s, k, e) for s in range(n) for k in range(s + ms, n) for e in range(k + ms, n + 1)]
 
@@ -80,7 +97,10 @@ def cost_table(cost, n, ms, w):
     return tab
 
 
-def check_matrix(acc, X):
+def check_matrix(acc, X, only_mv=False):
+    """only_mv: the multivariate (one output column) cost variants only -- used for the longer 2- and 3-column
+    spaces that exist because those costs need p+1 rows per part (change scores and local scores of a multivariate
+    cost are defined only from n = 2(p+1))."""
     from skchange.anomaly_scores import L2Saving, LocalAnomalyScore, Saving
     from skchange.change_scores import CUSUM, ChangeScore
     from skchange.costs import L2Cost
@@ -90,6 +110,8 @@ def check_matrix(acc, X):
     rows = costref.frac_rows(X)
     nontriv = any(len({r[j] for r in X}) > 1 for j in range(p))
     allv = variants.variants(p) + user_variants(p)
+    if only_mv:
+        allv = [V for V in allv if V.multivariate]
     opt_tab = {}
     for V in allv:
         acc.ev()
@@ -117,6 +139,8 @@ def check_matrix(acc, X):
         if nontriv:
             acc.nt()
         acc.outcome(V.name)
+    if only_mv:
+        return
     # directly implemented scores
     acc.ev()
     case = {"x": [list(r) for r in X], "variant": "direct"}
@@ -131,7 +155,9 @@ def check_matrix(acc, X):
                     acc.violation("cusum-vs-l2", dict(case, cut=list(c)), f"CUSUM^2 {cu[i]**2!r} != L2 change score {l2[i]!r} on {c}", key)
                     break
             acc.count("cuts3", len(c3))
+            survives(acc, case, key, CUSUM().fit(Xf), c3, "CUSUM")
         ivs = [(s, e) for s in range(n) for e in range(s + 1, n + 1)]
+        survives(acc, case, key, L2Saving().fit(Xf), ivs, "L2Saving")
         a = L2Saving().fit(Xf).evaluate(np.array(ivs))
         b = Saving(L2Cost(param=0.0)).fit(Xf).evaluate(np.array(ivs))
         for i, iv in enumerate(ivs):
@@ -192,6 +218,8 @@ def one_variant(acc, case, key, V, Xf, rows, n, p):
                               f"optimal-parameter change score {out[i]!r} < 0 on {(s, k, e)} (splitting increased the cost)", key)
                 return tab
         acc.count("cuts3", len(c3))
+        if not survives(acc, case, key, cs, c3, f"ChangeScore({V.name})"):
+            return tab
     # ---- saving ---------------------------------------------------------------------
     if not V.optimal:
         sv = Saving(V.make()).fit(Xf)
@@ -218,6 +246,8 @@ def one_variant(acc, case, key, V, Xf, rows, n, p):
                     acc.violation("saving-negative", dict(case, interval=list(iv)), f"saving {out[i]!r} < 0 on {iv}", key)
                     return tab
             acc.count("savings", len(ivs))
+            if not survives(acc, case, key, sv, ivs, f"Saving({V.name})"):
+                return tab
     # ---- local anomaly score ----------------------------------------------------------
     c4 = cuts4(n, ms)
     if c4:
@@ -261,6 +291,8 @@ def one_variant(acc, case, key, V, Xf, rows, n, p):
                                   f"LocalAnomalyScore({V.name}) on {c} = {out[i]!r} (reverse batch {out_r[i]!r}), C(s,e)-C(a,b)-C(pooled) = {want!r}", key)
                     return tab
             acc.count("cuts4", len(good))
+            if not survives(acc, case, key, ls, good, f"LocalAnomalyScore({V.name})"):
+                return tab
     return tab
 
 
@@ -350,6 +382,19 @@ def spaces(tier, seed):
     return sp
 
 
+def mv_spaces(tier):
+    """(alphabet, n, p): all 2-column matrices over S2; for p = 3 the matrices util.three_columns(xs) of all (0,3) series xs."""
+    return [("S2", 6, 2), ("3col", 8, 3)] if tier == "quick" else [("S2", 6, 2), ("S2", 7, 2), ("3col", 8, 3), ("3col", 9, 3), ("3col", 10, 3)]
+
+
+def mv_matrices(an, n, p, seed):
+    from props import c01
+
+    if p == 2:
+        return util.matrices(c01.alphabets(seed)[an], n, p)
+    return (tuple(tuple(r) for r in util.three_columns(xs)) for xs in itertools.product((0, 3), repeat=n))
+
+
 def shards(tier, seed):
     from props import c01
 
@@ -359,6 +404,10 @@ def shards(tier, seed):
         step = 128 if n * p >= 5 else 1024
         for lo in range(0, total, step):
             sh.append(("data", an, n, p, seed, lo, min(total, lo + step)))
+    for (an, n, p) in mv_spaces(tier):
+        total = (len(c01.alphabets(seed)[an]) ** (n * p)) if p == 2 else 2 ** n
+        for lo in range(0, total, 64):
+            sh.append(("mv", an, n, p, seed, lo, min(total, lo + 64)))
     for n in ((3,) if tier == "quick" else (3, 4)):
         m = n * (n + 1) // 2
         total = 3 ** m
@@ -372,6 +421,7 @@ def bounds(tier, seed):
     from props import c01
 
     return {"spaces(alphabet,n,p)": [list(s) for s in spaces(tier, seed)],
+            "multivariate_cost_spaces(alphabet,n,p)": [list(s) for s in mv_spaces(tier)],
             "alphabets": {k: list(v) for k, v in c01.alphabets(seed).items()},
             "variants": [v.name for v in variants.variants(2)] + ["User/opt", "User/fixed", "Table"],
             "table_family": "all tables over {0,1,2} on n=3 (quick) / n in (3,4) (thorough)"}
@@ -385,6 +435,10 @@ def run_shard(shard):
         _, an, n, p, seed, lo, hi = shard
         for X in itertools.islice(util.matrices(c01.alphabets(seed)[an], n, p), lo, hi):
             check_matrix(acc, X)
+    elif shard[0] == "mv":
+        _, an, n, p, seed, lo, hi = shard
+        for X in itertools.islice(mv_matrices(an, n, p, seed), lo, hi):
+            check_matrix(acc, X, only_mv=True)
     elif shard[0] == "table":
         _, n, lo, hi = shard
         m = n * (n + 1) // 2
